@@ -177,6 +177,12 @@ func (h *Hub) CancelPairingWithSKI(ski string) {
 	h.removeConnectionAttemptCounter(ski)
 
 	if existingC := h.connectionForSKI(ski); existingC != nil {
+		// a completed pairing is no pairing process, there is nothing to cancel:
+		// the connection stays, so do not report "not paired" for it
+		if state, _ := existingC.ShipHandshakeState(); state == model.SmeStateComplete {
+			return
+		}
+
 		existingC.AbortPendingHandshake()
 
 		// a handshake which is not waiting for trust can not be aborted that way:
